@@ -2179,6 +2179,275 @@ def handle_sel(chk, prog):
 
 
 # ------------------------------------------------------------------------------------------------
+# ------------------------------------------------------------------------------------------------
+# extension 5: detectors below the loss layer (LossSimulator._prepare_detectors_impl + simulate_detectors)
+
+def gen_det_case(rng, chk):
+    prog = gen_sel_case(rng, chk)
+    M = prog["m"] if prog["mode"] == "processor" else max(r0 + width(c) for r0, c in prog["comps"])
+    sel = prog["sel"]
+    if prog["mode"] == "processor":          # a Processor's herald modes keep their own bookkeeping (C05/C13)
+        sel["heralds"] = []
+        prog["inputs"] = [s for s in prog["inputs"]]
+    kind = rng.random()
+    dets = []
+    for i in range(M):
+        if kind < 0.12:                      # PNR list: simulate_detectors hands the distribution back
+            dets.append(rng.choice(["none", "pnr"]))
+        elif kind < 0.24:                    # the caller's list is all-threshold: Mixed once padded
+            dets.append("thr")
+        else:
+            dets.append(rng.choice(["none", "pnr", "thr", "thr", {"ppnr": [2, None]}, {"ppnr": [3, None]},
+                                    {"ppnr": [3, 2]}, {"ppnr": [4, 3]}]))
+    prog["dets"] = dets
+    # photons where they meet a detector: at least one input with 2+ photons in total
+    if all(sum(s) < 2 for s in prog["inputs"]):
+        s = list(prog["inputs"][0])
+        s[rng.randrange(M)] += 2
+        prog["inputs"][0] = s
+    return prog
+
+
+def build_det(spec):
+    from perceval.components import Detector
+    if spec == "none":
+        return None
+    if spec == "pnr":
+        return Detector.pnr()
+    if spec == "thr":
+        return Detector.threshold()
+    w, mx = spec["ppnr"]
+    return Detector.ppnr(w, mx) if mx is not None else Detector.ppnr(w)
+
+
+def det_rows(det, need):
+    """rows of `detect(n)`, n = 0..need, read from the real detector as exact rationals of its floats"""
+    import perceval as pcvl
+    rows = []
+    for n in range(need + 1):
+        d = det.detect(n)
+        if isinstance(d, pcvl.BasicState):
+            rows.append([(int(d[0]), Fraction(1))])
+        else:
+            rows.append(sorted((int(k[0]), Fraction(float(v))) for k, v in d.items()))
+    return rows
+
+
+def observe_det(prog):
+    import perceval as pcvl
+    from perceval.simulators import SimulatorFactory
+    sel = prog["sel"]
+    hv = {int(a): int(b) for a, b in sel["heralds"]}
+    objs, mats, rows = [], [], []
+    try:
+        for r0, spec in prog["comps"]:
+            objs.append(build_comp(spec))
+        mats = snapshot_mats(prog["comps"], objs)
+        dets = [build_det(d) for d in prog["dets"]]
+        need = max(sum(s) for s in prog["inputs"])
+        rows = [det_rows(d, need) if isinstance(spec, dict) else None for d, spec in zip(dets, prog["dets"])]
+        runs = []
+        if prog["mode"] == "processor":
+            p = pcvl.Processor(prog["backend"], prog["m"])
+            for (r0, spec), obj in zip(prog["comps"], objs):
+                p.add(r0, obj)
+            for i, d in enumerate(dets):
+                if d is not None:
+                    p.add(i, d)
+            if sel["ps_src"]:
+                p.set_postselection(pcvl.PostSelect(sel["ps_src"]))
+            p.min_detected_photons_filter(sel["minDet"])
+            for s in prog["inputs"]:
+                p.with_input(pcvl.BasicState(s))
+                res = p.probs(precision=0)
+                runs.append({"input": s, "via": "Processor.probs", "results": bsd_to_dict(res["results"]),
+                             "physical_perf": float(res["physical_perf"]), "logical_perf": float(res["logical_perf"])})
+        else:
+            lst = [(tuple(range(r0, r0 + obj.m)), obj) for (r0, spec), obj in zip(prog["comps"], objs)]
+            sim = SimulatorFactory.build(lst, prog["backend"])
+            sim.set_precision(0)
+            sim.set_selection(min_detected_photons_filter=sel["minDet"],
+                              postselect=pcvl.PostSelect(sel["ps_src"]) if sel["ps_src"] else None, heralds=hv)
+            sim.keep_heralds(sel["keep"])
+            for s in prog["inputs"]:
+                res = sim.probs_svd(pcvl.SVDistribution(pcvl.BasicState(s)), detectors=list(dets))
+                runs.append({"input": s, "via": "build(list).probs_svd(detectors)",
+                             "results": bsd_to_dict(res["results"]),
+                             "physical_perf": float(res["physical_perf"]), "logical_perf": float(res["logical_perf"])})
+        return {"runs": runs, "mats": mats, "rows": rows}
+    except Exception as e:
+        if is_repo_error(e):
+            return {"err": type(e).__name__, "msg": str(e)[:200], "mats": mats, "rows": rows}
+        raise
+
+
+def detect_py(dist, dets, rows):
+    """the detectors applied in Python to a distribution {state: prob} on the original modes"""
+    out = {}
+    for t, pr in dist.items():
+        parts = [((), pr)]
+        for n, spec, row in zip(t, dets, rows):
+            if spec in ("none", "pnr"):
+                opts = [(n, 1.0)]
+            elif spec == "thr":
+                opts = [(min(n, 1), 1.0)]
+            else:
+                opts = [(c, float(w)) for c, w in row[n]]
+            parts = [(k + (c,), q * w) for k, q in parts for c, w in opts]
+        for k, q in parts:
+            out[k] = out.get(k, 0.0) + q
+    return out
+
+
+def judge_det(chk, prog):
+    obs = observe_det(prog)
+    sel = prog["sel"]
+    req = None
+    try:
+        req = lean_request(prog, obs["mats"] + [None] * (len(prog["comps"]) - len(obs["mats"])))
+    except Exception:
+        pass
+    if req is None or len(obs["rows"]) != len(prog["dets"]):
+        return None
+    wire = [d if not isinstance(d, dict) else {"rows": [[[c, core.rat(w)] for c, w in row] for row in rows]}
+            for d, rows in zip(prog["dets"], obs["rows"])]
+    req = dict(req, op="probsdet", dets=wire,
+               sel={"heralds": sel["heralds"], "ps": sel["ps"], "minDet": sel["minDet"], "keep": sel["keep"]})
+    rep = chk.lean.ask(req)
+    if "err" in obs:
+        if "err" in rep:
+            return None
+        return ("violation", "detectors-with-loss-rejected",
+                f"the real API raised {obs['err']} ({obs.get('msg')}) on a lossy program with detectors the model accepts")
+    if "err" in rep:
+        return ("broken", "detectors-model-rejects", f"the model rejects ({rep['err']}) what the real API accepted")
+    M = rep["M"]
+    pnr_list = all(d in ("none", "pnr") for d in prog["dets"])
+    if (rep["dtype"] == "PNR") != pnr_list or rep["dtype"] not in ("PNR", "Mixed"):
+        return ("broken", "padded-detection-type", f"the model's detection type of the padded list is {rep['dtype']}")
+    umat = None
+    for run in obs["runs"]:
+        mr = rep["runs"][prog["inputs"].index(run["input"])]
+        if not mr["commute"]:
+            return ("broken", "detectors-do-not-commute-with-marginal",
+                    "the model's detected enlarged distribution, marginalised, is not the detected marginal")
+        if abs(float(Fraction(mr["mass"]) - 1)) > 1e-12 or abs(float(Fraction(mr["detMass"]) - 1)) > 1e-9:
+            return ("broken", "enlarged-mass", f"the model's enlarged / detected mass is {mr['mass']} / {mr['detMass']}")
+        mphys, mlog = Fraction(mr["physical"]), Fraction(mr["logical"])
+        sp, sret = Fraction(mr["specPhysical"]), Fraction(mr["retained"])
+        dropped = sum(run["input"]) < sel["minDet"]
+        if not dropped and sp > Fraction(1, 10**6):
+            # code-shaped model (inner filter on the enlarged detected state, three normalisations) against the
+            # specification (detectors on the marginal, one conditioning)
+            bad = abs(float(mphys - sp)) > 1e-9 or abs(float(mphys * mlog - sret)) > 1e-9
+            if not bad and sret > Fraction(1, 10**6):
+                bad = bool(dist_close({tuple(k): float(Fraction(v)) for k, v in mr["results"]},
+                                      {tuple(k): Fraction(v) for k, v in mr["spec"]}, 1e-9))
+            if bad:
+                return ("broken", "detectors-model-vs-spec",
+                        "the code-shaped model of simulate_detectors below the loss layer and the specification "
+                        "(detectors on the marginal distribution) differ")
+        mret = mphys * mlog
+        mj = {tuple(k): Fraction(v) * mret for k, v in mr["results"]}
+        probs = compare_sel(run, mj, mphys, mret, TOL)
+        hkeys = M if sel["keep"] else M - len(sel["heralds"])
+        if any(len(k) != hkeys for k in run["results"]):
+            return ("violation", "detectors-output-shape",
+                    f"{run['via']} returned states that are not on the {hkeys} reported modes")
+        if not probs:
+            continue
+        if umat is None:
+            umat = oracle_matrix(prog, obs["mats"])
+        od = detect_py(oracle_dist(*umat, run["input"]), prog["dets"], obs["rows"])
+        joint, phys, ret = sel_spec(od, sel, M)
+        if dropped:
+            joint, phys, ret = {}, 0.0, 0.0
+        oprobs = compare_sel(run, joint, phys, ret, 1e-7)
+        what = (f"{run['via']} on input {run['input']} with detectors {prog['dets']}, heralds {sel['heralds']}, "
+                f"post-selection {sel['ps_src']!r}, min_detected_photons {sel['minDet']}, keep_heralds {sel['keep']}")
+        if "dist" in oprobs or "norm" in oprobs:
+            return ("violation", "loss-detectors-differ",
+                    f"{what}: the reported distribution is not the enlarged lossless circuit's distribution on the "
+                    f"original modes seen through the detectors and conditioned on the selection ({oprobs})")
+        if "perf" in oprobs or "lperf" in oprobs:
+            return ("violation", "loss-detectors-perf",
+                    f"{what}: physical_perf {run['physical_perf']!r} / logical_perf {run['logical_perf']!r}, the "
+                    f"property gives {phys!r} / {(ret / phys if phys else None)!r}")
+        return ("broken", "detectors-model-vs-code", f"Lean model and {what} disagree ({probs}) but the numpy oracle "
+                                                     "agrees with the implementation")
+    return None
+
+
+def handle_det(chk, prog):
+    sel = prog["sel"]
+    dets = prog["dets"]
+    chk.branch("detectors-via-" + prog["mode"])
+    if all(d in ("none", "pnr") for d in dets):
+        chk.branch("detectors-pnr-list")
+    if all(d == "thr" for d in dets):
+        chk.branch("detectors-all-threshold-padded-mixed")
+    if any(isinstance(d, dict) for d in dets):
+        chk.branch("detectors-ppnr")
+    if any(d == "thr" for d in dets) and any(x >= 2 for s in prog["inputs"] for x in s):
+        chk.branch("detectors-threshold-bunched-input")
+    if sel["minDet"] and not all(d in ("none", "pnr") for d in dets):
+        chk.branch("detectors-inner-photon-filter")
+    if sel["heralds"]:
+        chk.branch("detectors-with-heralds")
+    for d in dets:
+        chk.count("det-kind", d if isinstance(d, str) else "ppnr")
+    res = judge_det(chk, prog)
+    chk.case(("det",) + signature(prog) + (json.dumps([sel, dets], sort_keys=True), tuple(map(tuple, prog["inputs"]))),
+             nontrivial=not all(d in ("none", "pnr") for d in dets),
+             sample={"dets": dets, "sel": {k: sel[k] for k in ("heralds", "ps_src", "minDet", "keep")},
+                     "mode": prog["mode"], "comps": [(r0, c["t"]) for r0, c in prog["comps"]][:8],
+                     "inputs": prog["inputs"][:2]})
+    if res is not None:
+        kind, sig, what = res
+
+        def fails(p):
+            try:
+                r = judge_det(chk, p)
+            except core.LeanError:
+                raise
+            except Exception:
+                return False
+            return r is not None and r[1] == sig
+        cur = copy.deepcopy(prog)
+        for s0 in list(cur["inputs"]):
+            if fails(dict(cur, inputs=[s0])):
+                cur = dict(cur, inputs=[s0])
+                break
+
+        def f2(cs):
+            if not any(sp["t"] == "LC" for _, sp in cs):
+                return False
+            if cur["mode"] == "list" and max(r0 + width(sp) for r0, sp in cs) != len(cur["inputs"][0]):
+                return False
+            return fails(dict(cur, comps=cs))
+        cur["comps"] = gens.shrink_list(cur["comps"], f2, max_rounds=40)
+        for cand_sel in (dict(cur["sel"], ps=True, ps_src=None), dict(cur["sel"], minDet=0),
+                         dict(cur["sel"], keep=False), dict(cur["sel"], heralds=[])):
+            cand = dict(cur, sel=cand_sel)
+            if cand_sel != cur["sel"] and fails(cand):
+                cur = cand
+        for i in range(len(cur["dets"])):
+            if cur["dets"][i] != "none":
+                cand = dict(cur, dets=cur["dets"][:i] + ["none"] + cur["dets"][i + 1:])
+                if fails(cand):
+                    cur = cand
+        try:
+            again = judge_det(chk, cur)
+            if again is not None and again[1] == sig:
+                what = again[2]
+        except core.LeanError:
+            raise
+        except Exception:
+            pass
+        chk.fail(kind, sig, what, {"det": cur})
+
+
+
 def load_corpus():
     out = []
     if os.environ.get("VERIF_C07_NO_CORPUS"):      # development aid: what does the generator find on its own?
@@ -2236,13 +2505,23 @@ def run(chk: core.Check):
                 "set_postselection/min_detected_photons_filter/probs: joint probabilities, physical_perf, logical_perf, "
                 "key shapes and normalisation against the model of _postprocess_bsd, the model against the "
                 "specification (exactly when the enlarged matrix is exactly unitary), disagreements classified by "
-                "numpy permanents conditioned in Python")
+                "numpy permanents conditioned in Python. Detector cases (45 / 450): the same lossy programs with one "
+                "detector per original mode from None / Detector.pnr / Detector.threshold / Detector.ppnr(2-4 wires, "
+                "max_detections None/2/3) (12% all-PNR lists, 12% all-threshold lists), heralds (list entry point), "
+                "post-selection, min_detected_photons 0-3, at least one input with two or more photons, through "
+                "SimulatorFactory.build(list).probs_svd(svd, detectors=...) and Processor.add(mode, Detector)/probs: "
+                "results, physical_perf, logical_perf, key shapes against the model of _prepare_detectors_impl + "
+                "simulate_detectors + _postprocess_bsd, the model against the specification (detectors on the marginal, "
+                "one conditioning) and the commutation theorem on the wire; oracle: numpy permanents, marginal, detectors "
+                "and conditioning in Python")
     chk.assumptions = [
         "leaf matrices are taken from each leaf's own compute_unitary() (their correctness is C14)",
         "the strong-simulation backends return the Fock-space probabilities of the matrix they are given (C02)",
         "Fock-state inputs or the emission-only noisy source (brightness, transmittance); heralds / post-selection / "
         "photon filter on top of the loss layer are modelled for a perfect source (the evaluation of a PostSelect "
-        "expression and the Processor's herald bookkeeping are C04's / C05's; here they are only driven), no detectors; "
+        "expression and the Processor's herald bookkeeping are C04's / C05's; here they are only driven); detectors below "
+        "the loss layer are modelled for a perfect source, the rows of a partially resolving detector being read from "
+        "the real detector (its probabilities are not C07's); "
         "the source distribution itself is C06's (it is read from the real Processor and "
         "compared with the emission model), annotated photons (g2, indistinguishability) with loss are not modelled",
         "evolve is compared with the code as it is (amplitudes of different loss patterns added), not with the physical "
@@ -2268,7 +2547,11 @@ def run(chk: core.Check):
                              "selection-via-processor", "selection-via-list", "selection-heralds",
                              "selection-herald-photons-in-filter", "selection-postselect",
                              "selection-photon-filter", "selection-keep-heralds",
-                             "selection-inner-filter-drops-input"]
+                             "selection-inner-filter-drops-input",
+                             "detectors-via-processor", "detectors-via-list", "detectors-pnr-list",
+                             "detectors-all-threshold-padded-mixed", "detectors-ppnr",
+                             "detectors-threshold-bunched-input", "detectors-inner-photon-filter",
+                             "detectors-with-heralds"]
     chk.lean = core.LeanDriver("C07")
     rng = chk.rng
     for item in load_corpus():
@@ -2298,6 +2581,8 @@ def run(chk: core.Check):
         handle_thin(chk, gen_thin_case(rng, chk))
     for i in range(chk.pick(110, 1100)):
         handle_sel(chk, gen_sel_case(rng, chk))
+    for i in range(chk.pick(45, 450)):
+        handle_det(chk, gen_det_case(rng, chk))
 
 
 def guarded(chk, what, replay, fn, *args):
@@ -2337,6 +2622,8 @@ def replay_item(chk, item):
         handle_thin(chk, item["thin"])
     elif "sel" in item:
         handle_sel(chk, item["sel"])
+    elif "det" in item:
+        handle_det(chk, item["det"])
     else:
         handle_thinning(chk)
 
